@@ -128,10 +128,25 @@ func (p c06) history(c *fw.Ctx) []c06Step {
 				return &gt.Node{K: gt.KMap, Kids: kids}
 			}
 			dst := c06Vars[r.IntN(len(c06Vars))]
-			if r.IntN(2) == 0 {
+			switch r.IntN(3) {
+			case 0:
 				add("plus", gt.Assign(dst, gt.In("+", mk(start, nl, 100), mk(lo, nr, 200))))
-			} else {
+			case 1:
 				add("plus", gt.Assign(dst, gt.In("+", mk(lo, nr, 200), mk(start, nl, 100))))
+			default: // the left operand grown key by key (its storage has room to spare), merged twice, then grown again
+				x := other(dst)
+				d2 := dst
+				for d2 == dst || d2 == x {
+					d2 = c06Vars[r.IntN(len(c06Vars))]
+				}
+				add("bind", gt.Assign(x, &gt.Node{K: gt.KMap}))
+				for i := 0; i < nl+3; i++ {
+					add("idxassign", &gt.Node{K: gt.KIdxAssign, Name: x, Kids: []*gt.Node{gt.Lit(fmt.Sprintf("k%02d", start+i-3)), gt.Lit(int64(100 + i))}})
+				}
+				add("plus", gt.Assign(dst, gt.In("+", gt.Id(x), mk(lo+1, nr, 200))))
+				add("plus", gt.Assign(d2, gt.In("+", gt.Id(x), mk(lo+1, 1+r.IntN(3), 300))))
+				add("idxassign", &gt.Node{K: gt.KIdxAssign, Name: x, Kids: []*gt.Node{gt.Lit("k98"), gt.Lit(int64(1))}})
+				kinds[x], kinds[d2] = "m", "m"
 			}
 			kinds[dst] = "m"
 		case 23, 24: // two results of one call, the key array of one taken out and updated through its own binding, a later call
